@@ -22,8 +22,11 @@ def looser_auth(pol):
     if isinstance(pol.origin, str):
         out.append(("origin-as-list", impl.AuthPolicy(pol.challenge, pol.rp_id, [pol.origin], pol.pubkey, pol.count, pol.require_uv)))
         out.append(("origin-superset", impl.AuthPolicy(pol.challenge, pol.rp_id, ["https://zzz.example", pol.origin, "https://yyy.example"], pol.pubkey, pol.count, pol.require_uv)))
+        for n in (18, 70, 1030):
+            out.append((f"origin-superset-of-{n}", impl.AuthPolicy(pol.challenge, pol.rp_id, authcat.long_origin_list(pol.origin, n), pol.pubkey, pol.count, pol.require_uv)))
     else:
         out.append(("origin-superset", impl.AuthPolicy(pol.challenge, pol.rp_id, list(pol.origin) + ["https://zzz.example"], pol.pubkey, pol.count, pol.require_uv)))
+        out.append(("origin-superset-of-many", impl.AuthPolicy(pol.challenge, pol.rp_id, [o for x in pol.origin for o in authcat.long_origin_list(x, 40)], pol.pubkey, pol.count, pol.require_uv)))
     return out
 
 
@@ -41,8 +44,10 @@ def looser_reg(pol):
     if isinstance(pol.origin, str):
         out.append(("origin-as-list", mk(origin=[pol.origin])))
         out.append(("origin-superset", mk(origin=["https://zzz.example", pol.origin])))
+        out.append(("origin-superset-of-40", mk(origin=authcat.long_origin_list(pol.origin, 40))))
     else:
         out.append(("origin-superset", mk(origin=list(pol.origin) + ["https://zzz.example"])))
+        out.append(("origin-superset-of-many", mk(origin=[o for x in pol.origin for o in authcat.long_origin_list(x, 40)])))
     if pol.algs is not None:
         out.append(("algs-superset", mk(algs=list(pol.algs) + [a for a in (-7, -8, -36, -37, -38, -39, -257, -258, -259, -65535) if a not in pol.algs])))
     return out
@@ -101,6 +106,11 @@ def run(tier, seed):
             kw_s = pol.kwargs()
             kw_s["expected_challenge"] = memoryview(bytes(b for x in kw_s["expected_challenge"] for b in (x, 0xAA)))[::2]
             outs["challenge-strided-memoryview"] = impl.outcome(lambda: webauthn.verify_authentication_response(credential=rec(bytes), **kw_s), impl.pr_verified_auth)
+        if label.startswith("baseline"):
+            # the text form has no size limit: padding and a large ignored member change nothing
+            for n in fw.size_ladder():
+                outs[f"text-padded-to-{n}"] = va(pol, json.dumps(d0) + " " * n)
+                outs[f"text-with-ignored-member-of-{n}"] = va(pol, json.dumps(dict(d0, clientExtensionResults={"ignored": "x" * n})))
         chk.evals += len(outs)
         ref = outs["dict"]
         for k, v in outs.items():
@@ -147,6 +157,10 @@ def run(tier, seed):
             kw_s["expected_challenge"] = memoryview(bytes(b for x in kw_s["expected_challenge"] for b in (x, 0xAA)))[::2]
             with impl.substituted(pol.substitute, pol.now):
                 outs["challenge-strided-memoryview"] = impl.outcome(lambda: webauthn.verify_registration_response(credential=rec(bytes), **kw_s), impl.pr_verified_reg)
+        if label.startswith("baseline/none") or label.startswith("baseline/packed"):
+            for n in fw.size_ladder():
+                outs[f"text-padded-to-{n}"] = vr(pol, json.dumps(d0) + " " * n)
+                outs[f"text-with-ignored-member-of-{n}"] = vr(pol, json.dumps(dict(d0, clientExtensionResults={"ignored": "x" * n})))
         chk.evals += len(outs)
         for k, v in outs.items():
             same = (v == base) or (v.startswith("ERR") and base.startswith("ERR"))
